@@ -341,8 +341,33 @@ func families(tier string) []fw.Family {
 	ulp := c02.UlpShapes(oracle.ContoursModRotation(L3, 4))
 	partners := [][][]oracle.Pt{{rect(-1, 0.5, 1, 1.5, true)}, {rect(-1, 0.5, 3, 1.5, true)}, {rect(0.5, -1, 1.5, 3, true)}, {rect(0, 0.5, 2, 5.5, true)},
 		{{{X: -1, Y: 0.5}, {X: 3, Y: 0.5}, {X: 1, Y: 2.5}}}, {rect(0.5, 0.5, 1.5, 1.5, false)}}
+	// operands that lie apart: every shape with holes (and nestings of depth 3) moved 10 to the
+	// right of the triangles it is combined with: the bounding-box shortcuts decide alone
+	shift := func(shapes [][][]oracle.Pt, dx, dy float64) [][][]oracle.Pt {
+		out := make([][][]oracle.Pt, len(shapes))
+		for i, sh := range shapes {
+			for _, c := range sh {
+				d := make([]oracle.Pt, len(c))
+				for k, q := range c {
+					d[k] = oracle.Pt{X: q.X + dx, Y: q.Y + dy}
+				}
+				out[i] = append(out[i], d)
+			}
+		}
+		return out
+	}
+	var apartShapes [][][]oracle.Pt
+	apartShapes = append(apartShapes, holedQ...)
+	apartShapes = append(apartShapes, c02.TwoHoles([][2]bool{{false, false}})[:40]...)
+	apartShapes = append(apartShapes, c02.Nestings(3)...)
+	apart := shift(apartShapes, 10, 0)
+	fewTris := tri3r[:24]
 	var fs []fw.Family
 	fs = append(fs, curvedFamily())
+	fs = append(fs,
+		pairFamily("tri(L3)/rot (first 24) x shapes with holes lying 10 to the right", fewTris, apart, 1, oracle.Pt{}, 1e-8, 1e-6, false),
+		pairFamily("shapes with holes lying 10 to the right x tri(L3)/rot (first 24)", apart, fewTris, 1, oracle.Pt{}, 1e-8, 1e-6, false),
+	)
 	fs = append(fs,
 		pairFamily("quad(L3)/rot with one vertex moved by one ulp x half-lattice partners", ulp, partners, 1, oracle.Pt{}, 1e-8, 1e-6, false),
 		pairFamily("half-lattice partners x quad(L3)/rot with one vertex moved by one ulp", partners, ulp, 1, oracle.Pt{}, 1e-8, 1e-6, false),
